@@ -34,6 +34,7 @@ package main
 //
 //@ func intersectMapMap(a, b) (res, err)
 //@   propagates all   [C08]
+//@   ensures ((_ is VMap) res)                                                      [C08]
 //@   requires ((_ is VMap) a) ((_ is VMap) b)
 //@   ensures (not (isErr err))
 //@   ensures (= res (interF a b))                                                  [C16]
